@@ -1,0 +1,55 @@
+//go:build verif
+
+package keyid
+
+// Contracts for the verification framework in /verif (comment-only file,
+// compiled only with -tags verif; see /verif/DESIGN.md).
+
+//@ # --- what encoding/json yields for a KeyID text (assumed, see /verif/external/json.spec)
+//@ ghost func jsonOK(s string) bool
+//@ ghost func jsonMapOK(s string) bool
+//@ ghost func jsonHasKey(s string, k string) bool
+//@ ghost func jsNonce(s string) bool
+//@ ghost func jsFF(s string) bool
+//@ ghost func jsHW(s string) bool
+//@ ghost func jsHeadless(s string) bool
+//@ ghost func jsTouch(s string) int
+//@ ghost func jsUsage(s string) int
+//@ ghost func jsVer(s string) int
+//@ ghost func jsTransID(s string) string
+//@ ghost func jsReqUser(s string) string
+//@ ghost func jsReqIP(s string) string
+//@ ghost func jsReqHost(s string) string
+//@ ghost func jsPrins(s string) bytes
+
+//@ # --- consistency rule of the property statement (C05)
+//@ ghost func cons(headless bool, nonce bool, hw bool, ff bool, touch int) bool =
+//@   (headless ==> !hw && !ff && touch == 1) && (nonce ==> !ff && !headless && touch == 1)
+
+//@ ghost func hasRequired(s string) bool =
+//@   jsonHasKey(s, "prins") && jsonHasKey(s, "transID") && jsonHasKey(s, "reqUser") && jsonHasKey(s, "reqIP") &&
+//@   jsonHasKey(s, "reqHost") && jsonHasKey(s, "isFirefighter") && jsonHasKey(s, "isHWKey") && jsonHasKey(s, "isHeadless") &&
+//@   jsonHasKey(s, "isNonce") && jsonHasKey(s, "touchPolicy") && jsonHasKey(s, "ver")
+
+//@ # --- decoding as a function of the text
+//@ ghost func decOK(s string) bool =
+//@   jsonOK(s) && jsVer(s) == 1 && jsonMapOK(s) && hasRequired(s) &&
+//@   cons(jsHeadless(s), jsNonce(s), jsHW(s), jsFF(s), jsTouch(s))
+//@ ghost func decNonce(s string) bool = jsNonce(s)
+//@ ghost func decFF(s string) bool = jsFF(s)
+//@ ghost func decHW(s string) bool = jsHW(s)
+//@ ghost func decHeadless(s string) bool = jsHeadless(s)
+//@ ghost func decTouch(s string) int = jsTouch(s)
+//@ ghost func decTransID(s string) string = jsTransID(s)
+
+//@ func Unmarshal(kidStr)
+//@   ensures err == nil <==> decOK(kidStr)
+//@   ensures err != nil ==> result == nil
+//@   ensures err == nil ==> result != nil && fresh(result)
+//@   ensures err == nil ==> result.IsNonce == jsNonce(kidStr) && result.IsFirefighter == jsFF(kidStr) &&
+//@     result.IsHWKey == jsHW(kidStr) && result.IsHeadless == jsHeadless(kidStr) &&
+//@     result.TouchPolicy == jsTouch(kidStr) && result.Usage == jsUsage(kidStr) && result.Version == 1 &&
+//@     result.TransID == jsTransID(kidStr) && result.ReqUser == jsReqUser(kidStr) &&
+//@     result.ReqIP == jsReqIP(kidStr) && result.ReqHost == jsReqHost(kidStr)
+//@   ensures err == nil ==> cons(result.IsHeadless, result.IsNonce, result.IsHWKey, result.IsFirefighter, result.TouchPolicy)
+//@   ensures err == nil ==> hasRequired(kidStr)
